@@ -1,6 +1,6 @@
 """C04 — every reference in a parsed module is the object that defines it."""
 from . import common as C
-from . import modgen, modprops
+from . import modgen, modprops, localgen
 from .modprops import hx
 
 TRUSTED = ["Lean 4.33 kernel; axioms: propext, Quot.sound at most (see coverage.axioms_used)"] + modprops.MODEL_TRUST
@@ -17,6 +17,12 @@ def gen(tier, rng, harness=None):
     lines = []
     for t in modprops.corpus_texts():
         lines.append("!mod.closure - %s" % hx(t))
+    # systematic: every use-site kind of one function body under namings that make names and IDs confusable (vlib/localgen.py)
+    for kind, exp, text, sk in localgen.cases(rng, 20 if tier == "quick" else 400):
+        if exp == "ok":
+            lines.append("mod.outcome %s %s" % (hx(sk), hx(text)))
+            lines.append("!mod.closure %s %s" % (hx(sk), hx(text)))
+            lines.append("!mod.fix %s %s" % (hx(sk), hx(text)))
     for m, text, sk in modprops.gen_modules(rng, n):
         lines.append("mod.outcome %s %s" % (hx(sk), hx(text)))
         lines.append("mod.lists %s %s" % (hx(sk), hx(text)))
